@@ -27,7 +27,10 @@ RULE = ("bin tables with 1-3 chromosomes (fixed width with short last bin, varia
         "ordered chunk iterator of dicts/DataFrames, ArrayLoader with chunksize 1..n+1) x value dtypes/extra columns x h5opts x "
         "random JSON metadata x assembly names; dtype of the input bin-id columns {int8, uint8, int16, uint16, int32, uint32, int64} x {sorted frame, "
         "shuffled frame, shuffled dict, chunk iterator} x storage mode on tables of 12-20 bins and of 300 bins whose pixels reach the highest bin "
-        "ids (dense view compared up to 20 bins, sparse view for 300); one round trip of 1,000,005 records over 2100 bins in which row 1000 begins exactly at record 1,000,000 (frame and 7-chunk iterator; "
+        "ids (dense view compared up to 20 bins, sparse view for 300); unordered creation (ordered=False / default for an iterable) over the grid number of chunks 1..17 x max_merge {0,1,2,3,4,10,200} x mergebuf "
+        "{1,2,7,2e7} (quick: mergebuf rotating; thorough: full cross + 230 chunks with the default max_merge) with sorted-disjoint / interleaved-with-"
+        "duplicates-across-chunks / empty-chunk layouts, shuffled chunk order, ensure_sorted, both storage modes, extra columns; "
+        "one round trip of 1,000,005 records over 2100 bins in which row 1000 begins exactly at record 1,000,000 (frame and 7-chunk iterator; "
         "square mode too in the thorough tier), read back through pixels()[a:b], sparse row fetches of rows 998..1002 and a dense window; "
         "a separate malformed stream (unsorted, duplicates across chunks, out-of-range ids, "
         "integer overflow of the output dtype, more records than max_size) is compared model-vs-code only. "
@@ -142,7 +145,8 @@ def build_input(case, workdir=None):
         if form == "unordered":
             u = rep["unordered"]
             chunks = [chunks[i] for i in u["order"]]
-            kw["ordered"] = False
+            if not u.get("omit_ordered"):         # ordered=False is the default for an iterable of chunks
+                kw["ordered"] = False
             for k in ("mergebuf", "max_merge", "delete_temp"):
                 if k in u:
                     kw[k] = u[k]
@@ -273,6 +277,16 @@ def impl_case(case, path):
 
 
 # --------------------------------------------------------------------------- model side
+MODEL_PREAMBLE = """
+Definition agg_rows (ncols : nat) (rows : list (key * list Z)) : list (key * list Z) :=
+  let cols := map (fun k => aggregate (col_px k rows)) (seq 0 ncols) in
+  match cols with
+  | c0 :: _ => map (fun p => (fst p, map (fun c => look c (fst p)) cols)) c0
+  | [] => []
+  end.
+"""
+
+
 def model_expr(case):
     cols = case["cols"]
     n = G.nbins_of(case["widths"])
@@ -286,6 +300,10 @@ def model_expr(case):
     form = case["form"]
     if form in ("frame", "dict") and case.get("rep", {}).get("api") == "create":
         body = f"create {d} {fits} {cnt} {C.z(n)} {flags} [{G.rows_lit(case['rows'])}]"
+    elif form == "unordered" and case.get("grp") == "unordered-grid":
+        # unordered creation stores the canonical aggregate of all records (C06's theorem): per value column the
+        # Pixels.aggregate of the stream, re-assembled into rows by [agg_rows] (defined in MODEL_PREAMBLE)
+        body = f"create_cooler_frame {d} {fits} {cnt} {C.z(n)} {flags} (agg_rows {C.nat(ncols)} {G.rows_lit(case['rows'])})"
     elif form in ("frame", "dict", "unordered"):
         # unordered creation of a duplicate-free stream stores the sorted table (the merge itself is C06's subject)
         body = f"create_cooler_frame {d} {fits} {cnt} {C.z(n)} {flags} {G.rows_lit(case['rows'])}"
@@ -323,6 +341,13 @@ def expected_rows(case):
         A = case["array"]
         n = len(A)
         return [[i, j, [A[i][j]]] for i in range(n) for j in range(n) if A[i][j] != 0 and i <= j]
+    if case["form"] == "unordered":
+        acc = {}
+        for r in case["rows"]:
+            a = acc.setdefault((r[0], r[1]), [0] * len(r[2]))
+            for k, x in enumerate(r[2]):
+                a[k] += x
+        return [[i, j, v] for (i, j), v in sorted(acc.items())]
     return sorted(case["rows"], key=lambda r: (r[0], r[1]))
 
 
@@ -667,6 +692,70 @@ def gen_cases(ctx):
                 case.pop("rows")
             cases.append(case)
 
+    # C5. unordered creation (ordered=False, the default for an iterable of chunks): number of chunks 1..17 x max_merge x mergebuf,
+    #     chunk layouts {sorted disjoint, interleaved with duplicates across chunks, empty chunks in the middle / at the end},
+    #     x ensure_sorted (chunks internally shuffled) x storage mode x extra columns.  The oracle is the matrix the records denote
+    #     (records with the same key in different chunks add up).
+    MAXM = [0, 1, 2, 3, 4, 10, 200]
+    MBUF = [1, 2, 7, 20_000_000]
+    C3u = [["count", "int", "int32", "int64"], ["foo", "float", "default", "float64"], ["bar", "int", "int64", "int64"]]
+    g = 0
+    nb = 7
+    grid = [(nc, mm, mb) for nc in range(1, 18) for mm in MAXM for mb in MBUF]
+    if not thorough:
+        # every max_merge below the number of chunks (two-pass merge), and one representative of the single-pass class
+        # {0, 200, the values >= number of chunks}, rotating; mergebuf rotating
+        grid = []
+        for nc in range(1, 18):
+            single = [0, 200] + [m for m in (1, 2, 3, 4, 10) if m >= nc]
+            mms = [m for m in (1, 2, 3, 4, 10) if m < nc] + [single[nc % len(single)]]
+            grid += [(nc, mm, MBUF[(nc + 3 * q) % 4]) for q, mm in enumerate(mms)]
+    else:
+        grid.append((230, None, 7))                       # more chunks than the default max_merge = 200
+    for (nc, mm, mb) in grid:
+        g += 1
+        symm = (g % 3) != 0
+        cols = C3u if g % 4 == 0 else DEFAULT_COLS
+        layout = ["disjoint", "overlap", "empties", "overlap-empties"][(g + nc) % 4]
+        es = (g % 5) == 0
+        cells = [(i, j) for i in range(nb) for j in range(nb) if (i <= j or not symm)]
+        rng.shuffle(cells)
+        nrec = min(len(cells), max(nc, rng.randint(nc, nc + 12)))
+        recs = [[i, j, [1 + rng.randint(0, 60) * (1 if c[1] == "int" else 2) for c in cols]] for (i, j) in sorted(cells[:nrec])]
+        nonempty = nc if layout in ("disjoint", "overlap") else max(1, nc - 1 - (nc > 4))
+        chunks = [[] for _ in range(nonempty)]
+        if layout.startswith("overlap"):
+            for r in recs:                                # interleaved key ranges
+                chunks[rng.randrange(nonempty)].append(r)
+            for r in rng.sample(recs, min(len(recs), 1 + nrec // 4)):    # the same key again in another chunk
+                others = [q for q in range(nonempty) if all(x[:2] != r[:2] for x in chunks[q])]
+                if others:
+                    chunks[rng.choice(others)].append([r[0], r[1], [v + 3 for v in r[2]]])
+            chunks = [sorted(ch, key=lambda r: (r[0], r[1])) for ch in chunks]
+        else:
+            marks = sorted(rng.randint(0, len(recs)) for _ in range(nonempty - 1))
+            edges = [0] + marks + [len(recs)]
+            chunks = [recs[a:b_] for a, b_ in zip(edges[:-1], edges[1:])]
+        while len(chunks) < nc:                           # empty chunks in the middle and at the end
+            chunks.insert(len(chunks) if len(chunks) % 2 else len(chunks) // 2, [])
+        order = list(range(nc))
+        if g % 2:
+            rng.shuffle(order)
+        if es:
+            for ch in chunks:
+                rng.shuffle(ch)
+        case = {"grp": "unordered-grid", "widths": G.BIN_TABLES[nb][g % len(G.BIN_TABLES[nb])], "symm": symm, "cols": cols, "form": "unordered",
+                "rows": [r for ch in chunks for r in ch], "cuts": [len(ch) for ch in chunks],
+                "chunkforms": [["dict", "df"][(g + q) % 2] for q in range(nc)], "layout": layout,
+                "rep": {"unordered": {"order": order, "mergebuf": mb, "omit_ordered": bool(g % 2)}}}
+        if mm is not None:
+            case["rep"]["unordered"]["max_merge"] = mm
+        if es:
+            case["opts"] = {"ensure_sorted": True}
+        if g % 7 == 0:
+            case["rep"]["iterkind"] = "generator"
+        cases.append(case)
+
     # D. ArrayLoader, every chunksize 1..n+1
     for n in (range(1, 8) if thorough else (1, 2, 3, 4, 6)):
         for rep in range(3 if thorough else 1):
@@ -947,7 +1036,7 @@ def run(ctx):
             pass
         outs.append(impl_case(case, str(d / f"c{k % 8}.cool")))
     exprs = [model_expr(c) for c in cases]
-    model = C.coq_eval("From Cooler Require Import Model.Create.", exprs, tmpdir=ctx.tmp / "model", shard=60, jobs=4)
+    model = C.coq_eval("From Cooler Require Import Model.Create.", exprs, preamble=MODEL_PREAMBLE, tmpdir=ctx.tmp / "model", shard=60, jobs=4)
     for case, out, mv in zip(cases, outs, model):
         check_case(ctx, case, out, parse_model(mv))
 
